@@ -425,6 +425,7 @@ class Forced:
         self.started = []          # (k, thread, done event, blocked event)
         self.errors = []
         self.answer = None
+        self.unseen_waits = 0
         self.go = {}               # k -> Event that lets the open writer k commit
         self.paused_actions = {}   # k -> number of model actions the open writer had completed when it paused
 
@@ -470,14 +471,18 @@ class Forced:
         self._run_until(done, blocked)
         return th
 
+    UNSEEN = 3.0
+
     def _run_until(self, *events):
-        deadline = self.TIMEOUT
+        """let the other thread run until one of the events is set. A thread that does neither finish nor report "blocked"
+        / "paused" within UNSEEN seconds waits for something the tracer does not see (e.g. the RLock of a table that the
+        reader holds): then the reader simply goes on, as it would in reality; the thread is joined later."""
+        import time
+        t_end = time.monotonic() + self.UNSEEN
         while not any(e.is_set() for e in events):
-            if not events[0].wait(0.0005):
-                deadline -= 0.0005
-                if deadline <= 0:
-                    self.errors.append('scheduler: writer neither finished nor blocked nor paused')
-                    return
+            if not events[0].wait(0.0005) and time.monotonic() > t_end:
+                self.unseen_waits += 1
+                return
 
     def _open_writer(self, k):
         """start writer k and run it up to the pause point inside its transaction"""
